@@ -121,12 +121,22 @@ class VCSStrategyGit(VCSStrategy):
         return {Path(file_) for file_ in all_files}
 
     def _find_submodules(self) -> set[Path]:
+        # .gitmodules lives in the top level of the work tree, which is not
+        # necessarily the root of the project.
+        result = execute_command(
+            [str(self.EXE), "rev-parse", "--show-toplevel"],
+            _LOGGER,
+            cwd=self.root,
+        )
+        toplevel = Path(
+            result.stdout.decode("utf-8").rstrip("\n") or self.root
+        ).resolve()
         command = [
             str(self.EXE),
             "config",
             "-z",
             "--file",
-            ".gitmodules",
+            str(toplevel / ".gitmodules"),
             "--get-regexp",
             r"\.path$",
         ]
@@ -138,18 +148,17 @@ class VCSStrategyGit(VCSStrategy):
             if entry
         ]
         # Each entry looks a little like 'submodule.submodule.path\nmy_path'.
-        return {Path(entry.splitlines()[1]) for entry in submodule_entries}
+        return {
+            (toplevel / entry.splitlines()[1]).resolve()
+            for entry in submodule_entries
+        }
 
     def is_ignored(self, path: StrPath) -> bool:
         path = relative_from_root(path, self.root)
         return path in self._all_ignored_files
 
     def is_submodule(self, path: StrPath) -> bool:
-        return any(
-            relative_from_root(path, self.root).resolve()
-            == submodule_path.resolve()
-            for submodule_path in self._submodules
-        )
+        return Path(path).resolve() in self._submodules
 
     @classmethod
     def in_repo(cls, directory: StrPath) -> bool:
